@@ -228,6 +228,26 @@ theorem strict_sorted_ext {β : Type} (key : β → Nat) :
         · exact hp'
     rw [this]
 
+/-- `sort_by_key` makes the unspecified iteration order of the hash map irrelevant: any two
+enumerations of the same map sort to the same list. -/
+theorem sortById_perm_eq (l₁ l₂ : List (Nat × α)) (hp : l₁.Perm l₂) (hn : (keys l₁).Nodup) :
+    sortById l₁ = sortById l₂ := by
+  have hn2 : (keys l₂).Nodup := (hp.map _).nodup_iff.1 hn
+  apply strict_sorted_ext (fun p => p.1) _ _ (sortById_strict l₁ hn) (sortById_strict l₂ hn2)
+  intro p
+  rw [mem_sortById, mem_sortById]
+  exact hp.mem_iff
+
+theorem lookup_perm (l₁ l₂ : List (Nat × α)) (hp : l₁.Perm l₂) (hn : (keys l₁).Nodup) (x : Nat) :
+    lookup l₁ x = lookup l₂ x := by
+  have hn2 : (keys l₂).Nodup := (hp.map _).nodup_iff.1 hn
+  cases h : lookup l₁ x with
+  | none =>
+    symm
+    rw [lookup_eq_none_iff] at h ⊢
+    exact fun hm => h ((hp.map _).mem_iff.2 hm)
+  | some v => exact (lookup_of_mem hn2 (hp.mem_iff.1 (mem_of_lookup h))).symm
+
 end maps
 
 /-! ### The invariant of the three file-set views -/
@@ -597,7 +617,7 @@ theorem query_of_inv {s : Db Text} (i : Inv s) {m : Nat → Option Text}
     cases hs : lookup s.salsaSrc f with
     | none =>
       have : m f = none := by rw [← hm f]; exact c4 f hs
-      simp [w2, hs, Spec.reads, this, iw, w1]
+      simp [w2, hs, w6, Spec.reads, this, iw, w1]
     | some hd =>
       obtain ⟨_, u, _, hu2⟩ := c3 f hd hs
       have : m f = some u := by rw [← hm f]; exact hu2
